@@ -11,3 +11,33 @@ pub use compiler_state::*;
 pub use source_files::*;
 pub use watch::handle_watch_command;
 pub use with_duration::*;
+
+/// Visibility-only hooks for /verif (replay of the artifact-directory plan on a real directory).
+#[cfg(isographlabs_isograph_verif)]
+pub mod verif_hooks {
+    use std::path::Path;
+
+    use artifact_content::FileSystemState;
+    use common_lang_types::{
+        ArtifactPathAndContent, FileSystemOperation, LocationFreeDiagnosticResult,
+    };
+
+    pub fn api_get_file_system_operations(
+        paths_and_contents: &[ArtifactPathAndContent],
+        artifact_directory: &Path,
+        file_system_state: &mut Option<FileSystemState>,
+    ) -> Vec<FileSystemOperation> {
+        crate::write_artifacts::get_file_system_operations(
+            paths_and_contents,
+            artifact_directory,
+            file_system_state,
+        )
+    }
+
+    pub fn api_apply_file_system_operations(
+        operations: &[FileSystemOperation],
+        artifacts: &[ArtifactPathAndContent],
+    ) -> LocationFreeDiagnosticResult<usize> {
+        crate::write_artifacts::apply_file_system_operations(operations, artifacts)
+    }
+}
